@@ -100,6 +100,9 @@ func errDiscipline(r *core.Run, rule string, fns []*core.FuncInfo, ids []idiom) 
 			if logOnlyResult(fn, d.Origin.Call) {
 				continue // the value only feeds a log line: its error carries no outcome of the function
 			}
+			if infallibleWrite(fn, d.Origin.Call, d.Origin.Callee) {
+				continue // writing into an in-memory builder / buffer: documented to always return a nil error
+			}
 			bad[d.Origin] = append(bad[d.Origin], "dropped("+d.Kind+")")
 		}
 		for _, s := range res.Swallows {
@@ -211,4 +214,34 @@ func logOnlyResult(fn *core.FuncInfo, call *ast.CallExpr) bool {
 		return true
 	})
 	return uses > 0 && uses == logUses
+}
+
+// infallibleWrite: a write into a *strings.Builder or *bytes.Buffer — its own Write* methods, or fmt.Fprint* handed
+// one as the writer. Both types document that the error is always nil.
+func infallibleWrite(fn *core.FuncInfo, call *ast.CallExpr, callee *types.Func) bool {
+	if callee == nil || callee.Pkg() == nil {
+		return false
+	}
+	inMem := func(t types.Type) bool {
+		if p, ok := t.(*types.Pointer); ok {
+			t = p.Elem()
+		}
+		n, ok := t.(*types.Named)
+		if !ok || n.Obj().Pkg() == nil {
+			return false
+		}
+		q := n.Obj().Pkg().Path() + "." + n.Obj().Name()
+		return q == "strings.Builder" || q == "bytes.Buffer"
+	}
+	if sig, ok := callee.Type().(*types.Signature); ok && sig.Recv() != nil {
+		return inMem(sig.Recv().Type()) && strings.HasPrefix(callee.Name(), "Write")
+	}
+	// the package may be analysed by a caller's inlining: the call's own package types its arguments
+	info := fn.Pkg.TypesInfo
+	if callee.Pkg().Path() == "fmt" && strings.HasPrefix(callee.Name(), "Fprint") && len(call.Args) > 0 {
+		if t := info.TypeOf(call.Args[0]); t != nil {
+			return inMem(t)
+		}
+	}
+	return false
 }
